@@ -263,10 +263,11 @@ Section LogPrior.
   Definition q_int_log (lo hi : Z) (u : Q) : Z := round_he (clipQ (inject_Z lo) (inject_Z hi) (q_real_log (inject_Z lo) (inject_Z hi) u)).
 End LogPrior.
 
-(* "normalize" transform (Optimizer with a GP / Mondrian forest surrogate) AS THE CODE IS TODAY: u uniform on [0, 1],
+(* "normalize" transform (Optimizer with a GP / Mondrian forest surrogate) AS THE CODE IS AT 5f31b5a (before fixes/F25): u uniform on [0, 1],
    Normalize(low, high, is_int=True).inverse_transform = round(u * (high - low) + low); clip; round.
    The two bounds get half a rounding cell each. *)
 Definition q_int_normalized (lo hi : Z) (u : Q) : Z := clipZ lo hi (round_he (u * inject_Z (hi - lo) + inject_Z lo)).
+(* [cats] in the order of the label encoder (np.unique order for categories of one type - an oracle) *)
 Definition q_cat_normalized (cats : list atom) (u : Q) : option atom :=
   nth_error cats (Z.to_nat (round_he (u * inject_Z (Z.of_nat (length cats) - 1)))).
 
